@@ -3,8 +3,15 @@ C01 — publish-subscribe delivery: ordered, at most once, byte-identical, loss 
 Theorems about the L1 publish-subscribe model `Iox2.PubSub` for every reachable state.  The ghost
 fields of the model (`Pub.seq`, `Pub.sent`, `Pub.chunkSeq`, `Conn.g*`, `Sub.ghostRecv`) number
 the samples of a publisher by send order; they are written but never read by the transitions.
+
+Proof: one inductive invariant in three layers (`Iox2/Proof/PubSubC01Inv.lean`, `…InvB.lean`):
+`InvA` (identities, registries, attachment structure, per-connection ghost-log structure),
+`InvB` (reference counting, non-reuse of chunks, payload of pending samples),
+`InvC` (send numbering: monotone, history first, nothing lost);
+`reach_inv : cfg.Sane → Reach cfg w → Inv cfg w` in `Iox2/Proof/PubSubC01Final.lean`.
 -/
 import Iox2.Model.PubSub
+import Iox2.Proof.PubSubC01Final
 namespace Iox2.PubSub.C01
 open Iox2.PubSub
 
@@ -20,6 +27,16 @@ inductive Interleave : List Nat → List Nat → List Nat → Prop
   | left {x a b l} : Interleave a b l → Interleave (x :: a) b (x :: l)
   | right {x a b l} : Interleave a b l → Interleave a (x :: b) (x :: l)
 
+/-! ### link to the vocabulary of the proof files -/
+
+theorem pending_eq (cn : Conn) : pending cn = C01P.pend cn := rfl
+
+theorem interleave_of_il {a b l : List Nat} (h : C01P.Il a b l) : Interleave a b l := by
+  induction h with
+  | nil => exact Interleave.nil
+  | left _ ih => exact Interleave.left ih
+  | right _ ih => exact Interleave.right ih
+
 /-! ### theorems -/
 
 /-- Order, at most once, FIFO: what was pushed into a connection is strictly increasing in send
@@ -31,7 +48,9 @@ theorem connection_fifo (cfg : Cfg) (hc : cfg.Sane) (w : World) (h : Reach cfg w
     (cn : Conn) (hcn : cn ∈ w.conns) :
     cn.gDelivered.Pairwise (· < ·) ∧
     ∃ consumed, Interleave cn.gReceived cn.gEvicted consumed ∧ cn.gDelivered = consumed ++ pending cn := by
-  sorry
+  have hI := C01P.reach_inv hc h
+  obtain ⟨h1, consumed, h2, h3⟩ := C01P.fifo_of_inv hI.a hI.c cn hcn
+  exact ⟨h1, consumed, interleave_of_il h2, h3⟩
 
 /-- Loss only as documented (1): eviction happens only with safe overflow, skipping only without;
 the buffer never holds more than its capacity; and a subscriber that has not received yet finds
@@ -42,7 +61,8 @@ theorem loss_kinds (cfg : Cfg) (hc : cfg.Sane) (w : World) (h : Reach cfg w)
     (pending cn).length ≤ cn.cap ∧
     (cn.gReceived = [] →
       pending cn = cn.gDelivered.drop (cn.gDelivered.length - min cn.gDelivered.length cn.cap)) := by
-  sorry
+  have hI := C01P.reach_inv hc h
+  exact C01P.loss_of_inv hI.a cn hcn
 
 /-- … one push: the oldest entry is evicted only from a full buffer under safe overflow and is
 handed back to the sender; a push is refused (`full`) only without safe overflow on a full buffer,
@@ -54,7 +74,7 @@ theorem trySend_cases (cn : Conn) (ov : Bool) (ch q : Nat) :
     ((cn.trySend ov ch q).2 = .ok none → pending (cn.trySend ov ch q).1 = pending cn ++ [q]) ∧
     ((cn.trySend ov ch q).2 = .full →
         ov = false ∧ cn.cap ≤ cn.sub.length ∧ (cn.trySend ov ch q).1 = { cn with gSkipped := cn.gSkipped ++ [q] }) := by
-  sorry
+  exact C01P.trySend_cases' cn ov ch q
 
 /-- Loss only as documented (2): while the publisher is connected to the subscriber, every sample
 it sent since the connection was made is either delivered into the connection or was skipped
@@ -64,7 +84,8 @@ theorem nothing_lost_silently (cfg : Cfg) (hc : cfg.Sane) (w : World) (h : Reach
     (p : Nat) (P : Pub) (hp : getP w p = some P) (hex : P.ex = true)
     (slot s : Nat) (hs : P.conns[slot]? = some (some s)) (cn : Conn) (hcn : getC w p s = some cn) :
     ∀ q, cn.gFirst ≤ q → q < P.seq → q ∈ cn.gDelivered ∨ q ∈ cn.gSkipped := by
-  sorry
+  have hI := C01P.reach_inv hc h
+  exact C01P.nlost_of_inv hI.a hI.c p P hp hex slot s hs cn hcn
 
 /-- History: on connecting, the newest `min(history request, buffer size)` samples of the
 publisher's history are delivered first, oldest first. -/
@@ -72,7 +93,8 @@ theorem history_first (cfg : Cfg) (hc : cfg.Sane) (w : World) (h : Reach cfg w)
     (cn : Conn) (hcn : cn ∈ w.conns) (hs : cn.sAtt = true) :
     cn.gHist <+: cn.gDelivered ∧ (∀ q ∈ cn.gHist, q < cn.gFirst) ∧
     (∀ q ∈ cn.gDelivered, q < cn.gFirst → q ∈ cn.gHist) ∧ cn.gHist.length ≤ cn.cap := by
-  sorry
+  have hI := C01P.reach_inv hc h
+  exact C01P.hist_of_inv hI.a hI.c cn hcn hs
 
 /-- Byte-identical: every sample waiting in the buffer of a live subscriber still carries the
 payload that was written for that send number (nothing overwrote the chunk), so `receive`
@@ -81,7 +103,8 @@ theorem pending_payload_intact (cfg : Cfg) (hc : cfg.Sane) (w : World) (h : Reac
     (s : Nat) (S : Sub) (hs : getS w s = some S) (hl : S.alive = true)
     (cn : Conn) (hcn : cn ∈ w.conns) (hsid : cn.sid = s) (ch q : Nat) (hq : (ch, q) ∈ cn.sub) :
     ∃ P, getP w cn.pid = some P ∧ P.payload.getD ch 0 = P.sent.getD q 0 ∧ q < P.seq := by
-  sorry
+  have hI := C01P.reach_inv hc h
+  exact C01P.payload_of_inv hI s S hs hl cn hcn hsid ch q hq
 
 /-- What `receive` reports is the head of the connection's buffer with its payload:
 the observable result of `recv` is `some:<publisher>:<payload written for that send number>`. -/
@@ -91,7 +114,8 @@ theorem recv_returns_written (cfg : Cfg) (hc : cfg.Sane) (w : World) (h : Reach 
     (hnew : S'.held = S.held ++ [hd]) :
     ∃ P, getP w hd.pid = some P ∧ hd.tag = P.sent.getD hd.seq 0 ∧
       (step w (.recv s)).2 = s!"some:{hd.pid}:{hd.tag}" := by
-  sorry
+  have hI := C01P.reach_inv hc h
+  exact C01P.recv_of_inv hI hnp s S' hd hs S hs0 hnew
 
 /-- The subscriber's own receive log, restricted to one publisher, is the connection's receive log
 (so per publisher/subscriber pair the order theorems above speak about what the application saw). -/
@@ -102,12 +126,50 @@ theorem subscriber_log_is_connection_log (cfg : Cfg) (hc : cfg.Sane) (w : World)
        | some cn => cn.gReceived
        | none => (S.ghostRecv.filter (·.1 = p)).map (·.2)) ∧
     ((S.ghostRecv.filter (·.1 = p)).map (·.2)).Pairwise (· < ·) := by
-  sorry
+  have hI := C01P.reach_inv hc h
+  exact C01P.sublog_of_inv hI.a hI.c s S hs p
+
+/-! ### non-vacuity -/
+
+/-- a run without panic before its last step ends in a reachable state -/
+def noPanicRun (w : World) : List Op → Bool
+  | [] => true
+  | op :: r => !w.panicked && noPanicRun (step w op).1 r
+
+theorem reach_run {cfg : Cfg} {w : World} (h : Reach cfg w) (ops : List Op) (hn : noPanicRun w ops = true) :
+    Reach cfg (run w ops) := by
+  induction ops generalizing w with
+  | nil => exact h
+  | cons op r ih =>
+    simp only [noPanicRun, Bool.and_eq_true, Bool.not_eq_true'] at hn
+    exact ih (Reach.step op h hn.1) hn.2
+
+def exCfg : Cfg :=
+  { maxPubs := 1, maxSubs := 1, bufMax := 2, hist := 0, borrowMax := 1, overflow := true, expired := 0 }
+
+/-- one subscriber (buffer 2, safe overflow), one publisher; three samples sent, one received -/
+def exOps : List Op :=
+  [.csub 0 none none, .cpub 0 3, .loan 0 0, .send 0 0 11, .loan 0 0, .send 0 0 12, .loan 0 0, .send 0 0 13,
+   .recv 0]
 
 /-- non-vacuity: a reachable state with overflow evictions, received samples and pending samples
 on one connection -/
 example : ∃ (cfg : Cfg) (w : World) (cn : Conn), cfg.Sane ∧ Reach cfg w ∧ cn ∈ w.conns ∧
     cn.gEvicted ≠ [] ∧ cn.gReceived ≠ [] ∧ cn.sub ≠ [] := by
-  sorry
+  have h1 : ((run (World.init exCfg) exOps).conns.head?.map fun c => (c.gEvicted, c.gReceived, c.sub)) =
+      some ([0], [1], [(2, 2)]) := by decide
+  cases hh : (run (World.init exCfg) exOps).conns.head? with
+  | none => rw [hh] at h1; cases h1
+  | some cn =>
+    rw [hh] at h1
+    simp only [Option.map_some, Option.some.injEq, Prod.mk.injEq] at h1
+    obtain ⟨e1, e2, e3⟩ := h1
+    refine ⟨exCfg, run (World.init exCfg) exOps, cn, by decide, reach_run Reach.init exOps (by decide),
+      List.mem_of_mem_head? (by rw [hh]; rfl), ?_, ?_, ?_⟩
+    · rw [e1]; simp
+    · rw [e2]; simp
+    · rw [e3]; simp
 
 end Iox2.PubSub.C01
+
+/-! ### axioms -/
